@@ -16,7 +16,7 @@ import re
 
 import vlib
 
-PROPS = ['Rangers.Props.C11', 'Rangers.Props.C11B', 'Rangers.Props.C11C', 'Rangers.Props.C11D', 'Rangers.Props.C11E', 'Rangers.Props.C11F', 'Rangers.Props.C11G']
+PROPS = ['Rangers.Props.C11', 'Rangers.Props.C11B', 'Rangers.Props.C11C', 'Rangers.Props.C11D', 'Rangers.Props.C11E', 'Rangers.Props.C11F', 'Rangers.Props.C11G', 'Rangers.Props.C11H']
 DRIVERS = ['C11']
 META = dict(
     level='proof',
@@ -78,6 +78,39 @@ def correspond(ctx):
         viol.append(dict(key=_panic_key(p['impl']), desc='implementation panicked: ' + p['impl'][:200],
                          replay=dict(op=op[:4000], impl=p['impl'])))
     st = c.get('stats') if isinstance(c.get('stats'), dict) else {}
+    # input distribution per correspondence stream: result classes, and which StateDB / precompile calls the runs reached
+    try:
+        paths = c.get('paths') or {}
+        by_stream, tape_kinds, sizes = {}, {}, {}
+        with open(paths['ops'], errors='replace') as fo, open(paths['obs'], errors='replace') as fb:
+            for o, x in zip(fo, fb):
+                w = o.split(' ', 1)
+                kind = w[0]
+                xt = x.split()
+                cls = xt[0] if xt else '?'
+                if kind == 'pgas' and len(xt) >= 2:
+                    cls = xt[1] + ('/saturated' if xt[0] == '18446744073709551615' else '')
+                if kind == 'gas' and cls == 'ok':
+                    cls = 'ok'
+                d = by_stream.setdefault(kind, {})
+                d[cls] = d.get(cls, 0) + 1
+                if kind in ('call', 'create', 'scall'):
+                    tape = o.rstrip('\n').rsplit(' ', 1)[-1]
+                    n = 0
+                    for e in tape.split(','):
+                        k = e.split(':', 1)[0].split('=', 1)[0]
+                        if k == 'pc':
+                            k = 'pc:' + e.split(':')[1][-2:]
+                        tape_kinds[k] = tape_kinds.get(k, 0) + 1
+                        n += 1
+                    b = 'tape<=8' if n <= 8 else 'tape<=64' if n <= 64 else 'tape<=1024' if n <= 1024 else 'tape>1024'
+                    sizes[b] = sizes.get(b, 0) + 1
+        st['by_stream'] = by_stream
+        st['tape_entry_kinds'] = tape_kinds
+        st['tape_sizes'] = sizes
+        c['stats'] = st
+    except Exception as ex:  # noqa
+        st['by_stream_error'] = str(ex)
     # hardening class 3/4: results handed out earlier must not change later; concurrent == sequential
     for v in st.get('retention_violations', []):
         viol.append(dict(key='returned-data-mutated-by-later-run', desc='bytes returned by an earlier evm.Call/Create changed after a later run', replay=dict(op=v)))
@@ -104,7 +137,7 @@ def _panic_key(msg):
         return 'blobhash-setbytes32-panic'
     if 'slice_bounds_out_of_range' in m:
         return 'slice-bounds-panic'
-    return 'panic-' + re.sub(r'[^a-z0-9]+', '-', m)[:40]
+    return 'panic-' + re.sub(r'[^a-z#]+', '-', re.sub(r'[0-9]+', '#', m))[:44]
 
 
 def search(ctx, hints):
